@@ -180,6 +180,31 @@ Fixpoint add_attribute (l : list attr) (a : attr) : list attr :=
 
 Definition no_req : ename := (0, AXmlns).
 
+(* K17 repair (GenNsfix.k17_fixed): an ordinary attribute with a prefix is stored under the name of
+   a pending attribute that has the same local part and another prefix bound to the same namespace
+   (findAttributeWithSameExpandedName), so that its value replaces that attribute's *)
+Definition same_exp (k : list ctx) (n : qname) (b : attr) : bool :=
+  match n, a_name b with
+  | (Some x, l), (Some y, l') =>
+      atom_eqb l l' && negb (atom_eqb x y) && negb (atom_eqb y AXmlns)
+      && match ns_for_prefix k (Some x), ns_for_prefix k (Some y) with
+         | Some u, Some w => N.eqb u w
+         | _, _ => false
+         end
+  | _, _ => false
+  end.
+
+Definition merge_target (k : list ctx) (l : list attr) (n : qname) : option qname :=
+  match find (same_exp k n) l with Some b => Some (a_name b) | None => None end.
+
+Definition add_attr_x (k : list ctx) (l : list attr) (a : attr) : list attr :=
+  if k17_fixed then
+    match merge_target k l (a_name a) with
+    | Some n' => add_attribute l (mkAttr n' (a_val a) (a_req a))
+    | None => add_attribute l a
+    end
+  else add_attribute l a.
+
 (* XSLTEngineImpl::addResultAttribute(pending attributes, aname, value, fromCopy=false) *)
 Definition add_result_attr (s : st) (name : qname) (v : N) (req : ename) : st :=
   let keep := set_pattrs s (add_attribute (pattrs s) (mkAttr name v req)) in
@@ -203,7 +228,7 @@ Definition add_result_attr (s : st) (name : qname) (v : N) (req : ename) : st :=
       | None => declare (Some p)
       | Some u => if N.eqb u v then s else declare (Some p)
       end
-  | _ => keep
+  | _ => set_pattrs s (add_attr_x (stk s) (pattrs s) (mkAttr name v req))
   end.
 
 (* XSLTEngineImpl::flushPending (the part that concerns the pending start tag) *)
@@ -269,6 +294,8 @@ Inductive op : Type :=
 (* xsl:attribute: name, evaluated namespace attribute (None = absent), the stylesheet's namespace
    for the name's prefix (None = undeclared), value *)
 | OAttr (name : qname) (nsattr : option uri) (sns : option uri) (v : N)
+(* the same instruction as a member of an xsl:attribute-set *)
+| OSetAttr (name : qname) (nsattr : option uri) (sns : option uri) (v : N)
 (* xsl:element: name, evaluated namespace attribute, stylesheet namespace of the prefix, the
    stylesheet's default namespace at the instruction, and at its parent (0 = none) *)
 | OElem (name : qname) (nsattr : option uri) (sns : option uri) (sdef : option uri) (pdef : uri)
@@ -327,15 +354,17 @@ Definition emit_attr (s : st) (name : qname) (v : N) (req : ename) : st :=
                                  | None => ename_eqb (a_req a) req && negb (qname_eqb (a_name a) name)
                                  end) (pattrs s) in
   let isdecl := match decl_prefix name with Some _ => true | None => false end in
-  add_result_attr (add_hz_if isdecl HDeclAttr (add_hz_if clash HK17 s)) name v req.
+  add_result_attr (add_hz_if isdecl HDeclAttr (add_hz_if (clash && negb k17_fixed) HK17 s)) name v req.
 
 Definition declare_prefix (s : st) (p : atom) (u : uri) : st :=
   add_result_attr s (Some AXmlns, p) u no_req.
 
 (* xsl:attribute with a namespace: no usable prefix is bound to the URI, so a declaration is
    generated for the prefix of the name (unless it is xmlns, or xml with a foreign URI, or bound to
-   another URI and in use on the pending element) or for an invented prefix *)
-Definition attr_new_decl (s : st) (P : pfx) (L : atom) (u : uri) (v : N) (req : ename) : st :=
+   another URI and in use on the pending element) or for an invented prefix.
+   nr (KN10 repair, GenNsfix.kn10_fixed, for an xsl:attribute of an attribute set): a prefix bound
+   to another URI is never re-bound, in use or not *)
+Definition attr_new_decl (nr : bool) (s : st) (P : pfx) (L : atom) (u : uri) (v : N) (req : ename) : st :=
   let keep_user :=
     match P with
     | Some AXmlns => None
@@ -343,7 +372,7 @@ Definition attr_new_decl (s : st) (P : pfx) (L : atom) (u : uri) (v : N) (req : 
         if atom_eqb p AXml && negb (N.eqb u uXML) then None
         else
         match ns_for_prefix (stk s) (Some p) with
-        | Some w => if negb (N.eqb w u) && is_pending_prefix s p then None else Some p
+        | Some w => if negb (N.eqb w u) && (nr || is_pending_prefix s p) then None else Some p
         | None => Some p
         end
     | None => None
@@ -358,7 +387,7 @@ Definition attr_new_decl (s : st) (P : pfx) (L : atom) (u : uri) (v : N) (req : 
       emit_attr s2 (Some g, L) v req
   end.
 
-Definition exec_attr (s : st) (name : qname) (nsattr sns : option uri) (v : N) : st :=
+Definition exec_attr (inset : bool) (s : st) (name : qname) (nsattr sns : option uri) (v : N) : st :=
   let P := fst name in
   let L := snd name in
   let req := req_attr name nsattr sns in
@@ -373,8 +402,8 @@ Definition exec_attr (s : st) (name : qname) (nsattr sns : option uri) (v : N) :
             | Some (Some q) =>
                 if match P with None => true | Some p => atom_eqb p q end
                 then emit_attr s (Some q, L) v req
-                else attr_new_decl s P L u v req
-            | _ => attr_new_decl s P L u v req
+                else attr_new_decl (kn10_fixed && inset) s P L u v req
+            | _ => attr_new_decl (kn10_fixed && inset) s P L u v req
             end
       end
   | None =>
@@ -455,6 +484,14 @@ Definition exec_elem (s : st) (name : qname) (nsattr sns sdef : option uri) (pde
           (* undeclared prefix and namespace="": the prefix is stripped *)
           elem_unprefixed s (None, L) req nsattr sdef pdef
       | _, _, _ =>
+          if kn6_fixed && match nsattr, sns with
+                          | Some 0, Some _ => negb (atom_eqb p AXmlns)
+                          | _, _ => false
+                          end
+          then
+            (* KN6 repair: namespace="" with a declared prefix: the prefix is dropped *)
+            elem_unprefixed s (None, L) req nsattr sdef pdef
+          else
           if negb (N.eqb ens0 0) && (atom_eqb p AXmlns || (atom_eqb p AXml && negb (N.eqb ens0 uXML)))
           then
             (* reserved prefix that cannot be bound to the requested namespace: dropped, the
@@ -644,7 +681,8 @@ Definition exec_op (s : st) (o : op) : st :=
   match o with
   | OText => text s
   | OEnd => end_elem s
-  | OAttr name nsattr sns v => exec_attr s name nsattr sns v
+  | OAttr name nsattr sns v => exec_attr false s name nsattr sns v
+  | OSetAttr name nsattr sns v => exec_attr true s name nsattr sns v
   | OElem name nsattr sns sdef pdef => exec_elem s name nsattr sns sdef pdef
   | OLre name inscope excl attrs => exec_lre s name inscope excl attrs
   | OLreOpen name inscope excl attrs => lre_open s name inscope excl attrs
